@@ -23,6 +23,7 @@ var (
 	fShard    = flag.Int("vshard", 0, "shard index")
 	fShards   = flag.Int("vshards", 1, "number of shards")
 	fSeed     = flag.Uint64("vseed", 1, "derived seed (recorded in violations)")
+	fSurvey   = flag.Bool("vsurvey", false, "record violations without stopping (development aid: lists every signature of a campaign)")
 	fExh      = flag.Bool("vexhaustive", false, "run the exhaustive enumeration instead of the random campaign")
 )
 
@@ -197,7 +198,7 @@ func TestWorker(t *testing.T) {
 	rapid.Check(t, func(rt *rapid.T) {
 		c := p.Gen(rt, tier)
 		fail, v := handle(c, failed)
-		if fail {
+		if fail && !*fSurvey {
 			failed = true
 			rt.Fatalf("violation %s: %s", v.Sig, v.Msg)
 		}
